@@ -89,6 +89,8 @@ func (c *c11Run) renderOne(o c11Op) string {
 		return "rm:" + w
 	case "rename":
 		return "rn:" + w + ":" + c.which(o.op.Arg)
+	case "truncate":
+		return fmt.Sprintf("tr:%s:%d", w, o.op.N)
 	}
 	return "?"
 }
@@ -343,7 +345,9 @@ func c12Gen(rng *rand.Rand, tier string) []Case {
 		h, _ := snapHistory(rng, snapGenOpts{maxEvents: 7, leave: rng.Intn(6) == 0}, names, &clk)
 		var body []string
 		for _, o := range h {
-			if o == "dump" {
+			// compact() is only reachable through appendLine/tryAppend in the code; a direct call
+			// (the hook) has no error recovery of its own, so it is not part of the fault lives
+			if o == "dump" || o == "compact" {
 				continue
 			}
 			body = append(body, o)
